@@ -341,8 +341,19 @@ Definition exec_db (fk_on : bool) (d : db) (st : stmt) : result db db_error :=
                                end in
           let rs := map (fun r => if sel r then rset col (eval_lit v) r else r) (rows_of table rd) in
           match find_ctable table c with
-          | Some t => if (fk_on && negb (fk_rows_ok (set_rows table [] rd) t rs))%bool then Err (DForeignKey table)
+          | Some t =>
+              match first_null t rs, first_failed_check t rs with
+              | Some cn, _ => Err (DNotNull table cn)
+              | None, Some k => Err (DCheck table k)
+              | None, None =>
+                  match find (fun i => (ieq (ci_table i) table && ci_unique i && has_dup_key (map (key_of (ci_cols i)) rs))%bool) (cat_indexes c) with
+                  | Some i => Err (DUnique (ci_name i))
+                  | None =>
+                      if (nonempty (pk_columns t) && has_dup_key (map (key_of (pk_columns t)) rs))%bool then Err (DUnique table)
+                      else if (fk_on && negb (fk_rows_ok (set_rows table [] rd) t rs))%bool then Err (DForeignKey table)
                       else Ok (mkDb c' (set_rows table rs rd))
+                  end
+              end
           | None => Ok (mkDb c' (set_rows table rs rd))
           end
       | _ => Ok (mkDb c' rd)
